@@ -13,6 +13,7 @@ CONSTANT MaxLen = %d
 CONSTANT EMIT = %s
 CONSTANT IdsIgnored = %s
 CONSTANT NIds = %d
+CONSTANT Kind = "%s"
 INVARIANT SnakesOK
 INVARIANT TopLevelIsLcs
 INVARIANT IdentityAligns
@@ -38,6 +39,24 @@ def real_cell(c):
         cell["id"] = "cell-%d" % c["id"]
     import nbformat
     return nbformat.from_dict(cell)
+
+
+def real_output(c):
+    """abstract output [a, v, o] -> an execute_result: data of two dissimilar kinds (a), the text or its moderate edit
+    (v: approximately but not strictly equal), execution count o"""
+    fam, var = _SRC[(c["a"], c["v"])]
+    import nbformat
+    return nbformat.from_dict({"output_type": "execute_result", "execution_count": c["o"], "metadata": {},
+                               "data": {"text/plain": concretize.source_variant(fam, var)}})
+
+
+def _abstract_output_predicates(details_ignored):
+    def approx(x, y):
+        return x["a"] == y["a"]
+
+    def strict(x, y):
+        return x["a"] == y["a"] and x["v"] == y["v"] and (details_ignored or x["o"] == y["o"])
+    return [approx, strict]
 
 
 def _abstract_predicates(ids_ignored):
@@ -68,12 +87,15 @@ def self_check():
             assert compare_cell_strict(rx, ry) == st(x, y), ("strict", x, y)
 
 
-def cell_align(chk, maxlen, nids, ids_ignored, emit=True):
-    r = tlc.run("CellAlign", CFG % (maxlen, "TRUE" if emit else "FALSE", "TRUE" if ids_ignored else "FALSE", nids),
-                workers=common.NCPU, timeout=3000, name="CellAlign-%d-%d-%s" % (maxlen, nids, ids_ignored), xmx="8g")
+def cell_align(chk, maxlen, nids, ids_ignored, emit=True, kind="cells"):
+    """kind "outputs": the same algorithm on the outputs of a cell under nbdime's two output predicates; ids_ignored
+    then says whether the details (execution counts) are ignored"""
+    r = tlc.run("CellAlign", CFG % (maxlen, "TRUE" if emit else "FALSE", "TRUE" if ids_ignored else "FALSE", nids, kind),
+                workers=common.NCPU, timeout=3000, name="CellAlign-%s-%d-%d-%s" % (kind, maxlen, nids, ids_ignored), xmx="8g")
     if r.invariant_violated or r.error:
         raise tlc.TLCError("CellAlign: %s\n%s" % (r.error, "\n".join(l for l in r.out.splitlines() if not l.startswith('"'))[-2500:]))
-    chk.add_model(r, "CellAlign MaxLen=%d NIds=%d IdsIgnored=%s (every pair of cell lists)" % (maxlen, nids, ids_ignored))
+    chk.add_model(r, "CellAlign %s MaxLen=%d NIds=%d %s=%s (every pair of lists)"
+                  % (kind, maxlen, nids, "IdsIgnored" if kind == "cells" else "DetailsIgnored", ids_ignored))
     if not emit:
         return
     from nbdime.diffing.snakes import compute_snakes_multilevel
@@ -83,14 +105,16 @@ def cell_align(chk, maxlen, nids, ids_ignored, emit=True):
     except AssertionError:
         # a change of the predicates themselves: the comparison below then says where they differ from the model
         chk.notes.setdefault("CellAlign_vs_nbdime", {})["content_mapping_self_check"] = "failed"
-    preds = _abstract_predicates(ids_ignored)
+    cells = kind == "cells"
+    preds = _abstract_predicates(ids_ignored) if cells else _abstract_output_predicates(ids_ignored)
+    make = real_cell if cells else real_output
     if ids_ignored:
-        nbd.set_notebook_diff_targets(identifier=False)
+        nbd.set_notebook_diff_targets(**({"identifier": False} if cells else {"details": False}))
     n = drift_algo = drift_pred = 0
     first = None
     cache = {}
     try:
-        real_preds = list(nbd.notebook_predicates["/cells"])
+        real_preds = list(nbd.notebook_predicates["/cells" if cells else "/cells/*/outputs"])
         for m in r.json_lines("ALIGN"):
             A = m["A"] if isinstance(m["A"], list) else []
             B = m["B"] if isinstance(m["B"], list) else []
@@ -104,8 +128,8 @@ def cell_align(chk, maxlen, nids, ids_ignored, emit=True):
                 drift_algo += 1
                 first = first or {"A": A, "B": B, "model": S, "nbdime_algorithm": got}
             try:
-                ra = [cache.setdefault(str(c), real_cell(c)) for c in A]
-                rb = [cache.setdefault(str(c), real_cell(c)) for c in B]
+                ra = [cache.setdefault(str(c), make(c)) for c in A]
+                rb = [cache.setdefault(str(c), make(c)) for c in B]
                 got2 = [tuple(s) for s in compute_snakes_multilevel(ra, rb, real_preds)]
             except Exception as e:  # noqa
                 got2 = "raised %s" % type(e).__name__
@@ -115,6 +139,6 @@ def cell_align(chk, maxlen, nids, ids_ignored, emit=True):
     finally:
         if ids_ignored:
             nbd.reset_notebook_differ()
-    chk.notes.setdefault("CellAlign_vs_nbdime", {})["maxlen%d-ids%d-%s" % (maxlen, nids, "ignored" if ids_ignored else "inforce")] = {
+    chk.notes.setdefault("CellAlign_vs_nbdime", {})["%s-maxlen%d-ids%d-%s" % (kind, maxlen, nids, "ignored" if ids_ignored else "inforce")] = {
         "pairs_compared": n, "drift_algorithm": drift_algo, "drift_real_predicates": drift_pred, "first_drift": first}
-    chk.count(("CellAlign", maxlen, nids, ids_ignored), nontrivial=False, n=n)
+    chk.count(("CellAlign", kind, maxlen, nids, ids_ignored), nontrivial=False, n=n)
